@@ -169,6 +169,24 @@ func NewFixture(tmp string, rnd func([]byte)) (*Fixture, error) {
 	f := &Fixture{Dir: filepath.Join(tmp, "c11keys"), DirOther: filepath.Join(tmp, "c11keys-other")}
 	mk := func(n int) []byte { b := make([]byte, n); rnd(b); return b }
 	f.K1, f.K2, f.KX, f.KP = mk(32), mk(32), mk(32), mk(64)
+	// Files the server does NOT hold as signing keys but a crafted kid can reach:
+	// SIBLING directories whose names merely extend the key directory's name,
+	// an unrelated directory, a directory whose name is a proper prefix of it;
+	// and, inside the key directory, a nested file and a name containing "..".
+	root := tmp
+	for _, e := range []struct{ rel string }{
+		{"c11keys.old/stale"}, {"c11keys-backup/stale"}, {"c11keys~/stale"}, {"c11keys.d/k1"},
+		{"unrelated/file"}, {"c11/file"},
+		{"c11keys/sub/inner"}, {"c11keys/k1..bak"},
+	} {
+		pth := filepath.Join(root, e.rel)
+		if err := os.MkdirAll(filepath.Dir(pth), 0o700); err != nil {
+			return nil, err
+		}
+		if err := os.WriteFile(pth, refcodec.C11Scramble(mk(32)), 0o600); err != nil {
+			return nil, err
+		}
+	}
 	for _, d := range []struct {
 		dir string
 		k1  []byte
@@ -772,13 +790,128 @@ func timeClaims(kind string, v Variant, now int64) (refcodec.C11Claims, bool) {
 	case "iat_future":
 		c.Iat = now + delta(v, 60)
 		c.Exp = c.Iat + 600
+	case "time_both_bad":
+		c.Iat, c.Exp = now-MaxAge-delta(v, 10), now-delta(v, 10)
+	case "no_exp":
+		c.NoExp = true
+	case "no_iat":
+		c.NoIat = true
+	case "nbf_future":
+		c.Nbf = now + delta(v, 60)
 	default:
 		return c, false
+	}
+	// other spellings of the same numbers (fraction, exponent form) and
+	// unrelated extra claims must not change the verdict
+	switch ((v.Alt % 4) + 4) % 4 {
+	case 1:
+		if !c.NoExp {
+			c.ExpText = fmt.Sprintf("%d.75", c.Exp-1)
+		}
+		if !c.NoIat {
+			c.IatText = fmt.Sprintf("%d.25", c.Iat)
+		}
+	case 2:
+		c.Extra = `"scope":"condor:/READ condor:/WRITE","aud":["a","b"],"exp2":1`
+	case 3:
+		if !c.NoExp {
+			c.ExpText = fmt.Sprintf("%d.0e0", c.Exp)
+		}
 	}
 	return c, true
 }
 
 var unknownKids = []string{"k9", "K1", "k1.bak", "k1 ", "k3"}
+
+// KidAlt is one concrete key id of a path shape: the text, and the file whose
+// bytes the presenter of the token knows ("" = Key is given directly).
+type KidAlt struct {
+	Kid  string
+	File string // path (lexically resolved) of the file the kid reaches
+	Key  []byte // used when File == ""
+}
+
+// KidAlts lists the concrete key ids of an abstract shape of TokenAuth.tla
+// (ForeignKids, SilentKids, PoolKids) for the key directory f.Dir.
+func (f *Fixture) KidAlts(shape string) []KidAlt {
+	name := filepath.Base(f.Dir) // "c11keys"
+	parent := filepath.Dir(f.Dir)
+	lex := func(kids ...string) []KidAlt { // the file <keydir>/<kid> resolves to, lexically
+		var out []KidAlt
+		for _, k := range kids {
+			out = append(out, KidAlt{Kid: k, File: filepath.Clean(f.Dir + "/" + k)})
+		}
+		return out
+	}
+	switch shape {
+	case "up_sibling":
+		return lex("../"+name+".old/stale", "../"+name+"-backup/stale", "../"+name+"~/stale", "../"+name+"-other/k1",
+			"../"+name+".d/k1", "./../"+name+".old/stale", "sub/../../"+name+".old/stale",
+			"../"+name+".old/../"+name+"-backup/stale", "..//"+name+".old//stale", "k1/../../"+name+"~/stale",
+			"../"+name+".old/./stale", "../"+name+"/../"+name+".old/stale")
+	case "up_unrelated":
+		return lex("../unrelated/file", "../c11/file", "../../"+filepath.Base(parent)+"/unrelated/file",
+			"../unrelated/../unrelated/file", "sub/../../unrelated/file", "./../c11/file")
+	case "abs_out":
+		return []KidAlt{
+			{Kid: filepath.Join(parent, "unrelated/file"), File: filepath.Join(parent, "unrelated/file")},
+			{Kid: filepath.Join(parent, name+".old/stale"), File: filepath.Join(parent, name+".old/stale")},
+			{Kid: "/" + filepath.Join(parent, name+"-backup/stale"), File: filepath.Join(parent, name+"-backup/stale")},
+		}
+	case "backslash":
+		return []KidAlt{
+			{Kid: `..\` + name + `.old\stale`, File: filepath.Join(parent, name+".old/stale")},
+			{Kid: `k1\`, Key: f.K1}, {Kid: `.\k1`, Key: f.K1},
+			{Kid: `sub\inner`, File: filepath.Join(f.Dir, "sub/inner")},
+			{Kid: `..\` + name + `\k1`, Key: f.K1},
+		}
+	case "up_back_in":
+		return lex("../"+name+"/k1", "sub/../k1", "../"+name+"/./k2", "./sub/../k2", "../"+name+"/sub/../k1")
+	case "dot_k1":
+		return []KidAlt{{Kid: "./k1", Key: f.K1}, {Kid: "k1/", Key: f.K1}, {Kid: "././k1", Key: f.K1},
+			{Kid: ".//k1", Key: f.K1}, {Kid: "k1/.", Key: f.K1}, {Kid: "./k2", Key: f.K2}}
+	case "sub_inner":
+		return lex("sub/inner", "./sub/inner", "sub//inner", "sub/./inner")
+	case "dotdot_name":
+		return lex("k1..bak")
+	case "nul":
+		return []KidAlt{{Kid: "k1\x00", Key: f.K1}, {Kid: "k1\x00.old", Key: f.K1},
+			{Kid: "k1\x00/../../" + name + ".old/stale", Key: f.K1}, {Kid: "k2\x00k1", Key: f.K2}}
+	case "empty":
+		return []KidAlt{{Kid: "", Key: f.KP}}
+	case "POOL":
+		return []KidAlt{{Kid: "POOL", Key: f.KP}}
+	}
+	return nil
+}
+
+// forgerKey: the presenter knows the bytes of the file the kid reaches and
+// undoes the on-disk scrambling the way the reference describes it.
+func (a KidAlt) forgerKey() ([]byte, error) {
+	if a.File == "" {
+		return a.Key, nil
+	}
+	b, err := os.ReadFile(a.File)
+	if err != nil {
+		return nil, err
+	}
+	return refcodec.C11Scramble(b), nil
+}
+
+// silentKids maps the statement-silent spellings to the key they reach (for the oracle).
+func (f *Fixture) silentKids() map[string][]byte {
+	m := map[string][]byte{}
+	for _, sh := range []string{"up_back_in", "dot_k1", "sub_inner", "dotdot_name", "nul"} {
+		for _, a := range f.KidAlts(sh) {
+			if k, err := a.forgerKey(); err == nil {
+				m[a.Kid] = k
+			}
+		}
+	}
+	return m
+}
+
+const MallorySub = "mallory@" + Domain
 
 const b64alpha = "ABCDEFGHIJKLMNOPQRSTUVWXYZabcdefghijklmnopqrstuvwxyz0123456789-_"
 
@@ -814,10 +947,22 @@ func Run(f *Fixture, model Model, sc *Scn, v Variant) (*Obs, *Scn, Concrete, err
 	}
 	now := time.Now().Unix()
 	baseC := refcodec.C11Claims{Kid: "k1", Sub: AliceSub, Iss: Domain, Iat: now - 5, Exp: now + 600, Jti: fmt.Sprintf("j%d-%d", v.Idx, v.Bit)}
-	base := refcodec.C11MintToken(f.K1, baseC)
+	baseKey := f.K1
+	// the honest credential may be issued under any key the server holds (only for
+	// deviations that do not themselves depend on which key that is)
+	if sc.Via == "wire" || sc.Kind == "none" || sc.Kind == "claim_all" ||
+		sc.Kind == "tok_hdr" || sc.Kind == "tok_pay" || sc.Kind == "tok_sig" || sc.Kind == "tok_sig_same" {
+		switch ((v.Base % 3) + 3) % 3 {
+		case 1:
+			baseC.Kid, baseKey = "k2", f.K2
+		case 2:
+			baseC.Kid, baseKey = "POOL", f.KP
+		}
+	}
+	base := refcodec.C11MintToken(baseKey, baseC)
 	r := &relay{sc: sc, v: v, clientTok: base, tailIn: tail, minted: map[string]string{}}
 	note := func(tok, kid string) { si, _ := splitTok(tok); r.minted[si] = kid }
-	note(base, "k1")
+	note(base, baseC.Kid)
 	other := false
 	eff := sc
 	conc := Concrete{Kind: sc.Kind}
@@ -857,6 +1002,26 @@ func Run(f *Fixture, model Model, sc *Scn, v Variant) (*Obs, *Scn, Concrete, err
 		r.clientTok = refcodec.C11MintToken(f.KX, c)
 	case "srv_otherkey":
 		other = true
+	case "kid_path":
+		alts := f.KidAlts(sc.Pos)
+		if len(alts) == 0 {
+			return nil, sc, conc, fmt.Errorf("no concrete key id for shape %q", sc.Pos)
+		}
+		a := pick(alts, v.Alt)
+		key, err := a.forgerKey()
+		if err != nil {
+			return nil, sc, conc, fmt.Errorf("kid shape %s: %v", sc.Pos, err)
+		}
+		c := baseC
+		c.Kid, c.Sub = a.Kid, MallorySub
+		t := refcodec.C11MintToken(key, c)
+		conc.Identity = fmt.Sprintf("kid=%q reaches %q", a.Kid, a.File)
+		if sc.Via == "insider" {
+			r.insTok, r.insID = t, MallorySub
+			conc.Presented = t
+		} else {
+			r.clientTok = t
+		}
 	case "claim_all":
 		r.insTok, r.insID = base, pick(identityAlts, v.Alt)
 		conc.Identity = r.insID
@@ -999,6 +1164,17 @@ func RunVerify(f *Fixture, model Model, sc *Scn, v Variant) (VerifyResult, *Scn,
 	case "v_srv_otherkey":
 		tok, _ = f.baseToken(0, now, jti)
 		other = true
+	case "v_kid_path":
+		alts := f.KidAlts(sc.Pos)
+		if len(alts) == 0 {
+			return VerifyResult{Skip: true}, sc, Concrete{}
+		}
+		a := pick(alts, v.Alt)
+		key, err := a.forgerKey()
+		if err != nil {
+			return VerifyResult{Skip: true}, sc, Concrete{}
+		}
+		tok = refcodec.C11MintToken(key, refcodec.C11Claims{Kid: a.Kid, Sub: MallorySub, Iss: Domain, Iat: now - 5, Exp: now + 600, Jti: jti})
 	case "v_sig_same":
 		tok = sameSigRespell(base, v.Alt)
 		if v.Alt >= 3 {
@@ -1030,7 +1206,7 @@ func RunVerify(f *Fixture, model Model, sc *Scn, v Variant) (VerifyResult, *Scn,
 		tok = refcodec.C11MintToken(f.K1, c)
 	}
 	cfg := f.serverCfg(other)
-	res := VerifyResult{Oracle: refcodec.C11VerifyOracle(tok, f.Keys(other), now, MaxAge, 5)}
+	res := VerifyResult{Oracle: refcodec.C11VerifyOracleSoft(tok, f.Keys(other), f.silentKids(), now, MaxAge, 5)}
 	func() {
 		defer func() {
 			if p := recover(); p != nil {
